@@ -895,11 +895,14 @@ func (s *AbsfsNFS) ReadDirPlus(dir *NFSNode) ([]*NFSNode, error) {
 			node.mu.RUnlock()
 
 			modTime := info.ModTime()
+			h := fnv.New64a()
+			h.Write([]byte(node.path))
 			attrs := &NFSAttrs{
-				Mode: info.Mode(),
-				Size: info.Size(),
-				Uid:  uid,
-				Gid:  gid,
+				Mode:   info.Mode(),
+				Size:   info.Size(),
+				FileId: h.Sum64(), // the same fileid LOOKUP, GETATTR and READDIR report
+				Uid:    uid,
+				Gid:    gid,
 			}
 			attrs.SetMtime(modTime)
 			attrs.SetAtime(modTime)
